@@ -106,6 +106,9 @@ def check_numeric(case, ctx):
     nx, ny = case['nx'], case['ny']
     ctx.nontrivial = True
     p.force_orthotropic_laminate = bool(case.get('force_ortho'))
+    if case.get('N_cte'):
+        p.Nxx_cte, p.Nyy_cte, p.Nxy_cte = case['N_cte']     # a constant pre-load is part of both descriptions
+        ctx.label('pre-loaded')
     ctx.label('model:' + case['model'], 'force_orthotropic' if case.get('force_ortho') else 'full-laminate')
     with package('analytic'):
         K = dense(p.calc_k0(silent=True))
@@ -280,6 +283,7 @@ def _numeric_strategy(draw, tier='quick'):
     case['nx'] = max(case['m'], 4) + 1 + draw(st.integers(0, 6))
     case['ny'] = max(case['n'], 4) + 1 + draw(st.integers(0, 6))
     case['force_ortho'] = draw(st.sampled_from([False, False, True]))
+    case['N_cte'] = [round(draw(gen.fl(-1e3, 1e3)), 2) for _ in range(3)] if draw(st.booleans()) else None
     return case
 
 
